@@ -24,10 +24,11 @@ CommentRC  == {<<2, 2>>, <<7, 3>>}
 Texts      == {"x & y <z>"}
 MergePool  == {"A1:B2", "D4:E9"}
 N(nm, loc, ref, addr, hid) == [name |-> nm, local |-> loc, ref |-> ref, addr |-> addr, hidden |-> hid]
-NamePool   == { N("Glob", -1, "S1", "'S1'!$A$1:$B$2", FALSE), N("Loc", 1, "S1", "'S1'!$C$3", FALSE),
-                N("First", 0, "My & Sheet", "'My & Sheet'!$B$2", FALSE),
-                N("Other", -1, "My & Sheet", "'My & Sheet'!$A$1", TRUE), N("Konst", -1, "", "42", FALSE),
-                N("Gone", -1, "Zed", "'Zed'!$A$1", FALSE) }
+(* the same name in several scopes (global, local to sheet 1, local to sheet 2), and names that differ only in case *)
+NamePool   == { N("Glob", -1, "S1", "'S1'!$A$1:$B$2", FALSE), N("GLOB", 1, "S1", "'S1'!$C$3", FALSE),
+                N("Area", 0, "My & Sheet", "'My & Sheet'!$B$2", FALSE), N("Area", 1, "S1", "'S1'!$D$4", FALSE),
+                N("Area", -1, "", "42", FALSE),
+                N("Other", -1, "My & Sheet", "'My & Sheet'!$A$1", TRUE), N("Gone", -1, "Zed", "'Zed'!$A$1", FALSE) }
 Dv(sq, ty, op, f1, f2, pt, pr) == [sqref |-> sq, type |-> ty, op |-> op, blank |-> TRUE, showin |-> TRUE, showerr |-> FALSE,
                                    ptitle |-> pt, prompt |-> pr, etitle |-> "", emsg |-> "", f1 |-> f1, f2 |-> f2]
 DvPool     == { Dv("A1:A5", "list", "between", "\"a,b,c\"", "", "T<1>", "pick & choose"),
